@@ -46,7 +46,8 @@ let check_cl (t : toks) : string =
             | None -> s)
          else s) in
   if hang then bad ("ORACLE C10.call_never_returned " ^ where);
-  if not tagsback then bad ("ORACLE C09.tags_not_recycled " ^ where);
+  (* after a failure every refused call must still give its tag back: 65535 leaked tags later ReqAlloc blocks for ever (C10) *)
+  if not tagsback then bad ((if failing then "ORACLE C09.tags_not_recycled|C10.refused_or_failed_call_leaks_its_tag " else "ORACLE C09.tags_not_recycled ") ^ where);
   if disturbed then bad ("ORACLE C13.client_reply_disturbed_by_later_bytes|C09.call_holds_another_calls_data " ^ where);
   if not distinct then bad ("ORACLE C09.outstanding_tags_not_distinct " ^ where);
   List.iteri (fun i (c, own) ->
